@@ -112,7 +112,9 @@ func summarize(v reflect.Value) string {
 		if f.Kind() == reflect.Ptr {
 			f = f.Elem()
 		}
-		if f.Kind() == reflect.Struct {
+		if tm, ok := f.Interface().(time.Time); ok {
+			out += fmt.Sprintf("%s=%s ", v.Type().Field(i).Name, tm.Format(time.RFC3339Nano))
+		} else if f.Kind() == reflect.Struct {
 			out += fmt.Sprintf("%s={%s} ", v.Type().Field(i).Name, summarize(f))
 		} else if f.Kind() == reflect.Slice && f.Type().Elem().Kind() == reflect.Struct {
 			out += v.Type().Field(i).Name + "=["
@@ -128,6 +130,14 @@ func summarize(v reflect.Value) string {
 }
 
 func main() {
+	if len(os.Args) > 1 && os.Args[1] == "demo5" {
+		demo5()
+		return
+	}
+	if len(os.Args) > 1 && os.Args[1] == "demo4" {
+		demo4()
+		return
+	}
 	if len(os.Args) > 1 && os.Args[1] == "demo3" {
 		demo3()
 		return
